@@ -9,7 +9,9 @@ def cls : CharClass := Gen.C09.stripClass
 def fin : Char := Gen.C09.stripFinal
 
 /-- `12`, `-3` (an `int`) or `2.5`, `-0.25`, `7.0` (a `float`: digits with one `.`) -/
-def parseNum (s : String) : Option Num :=
+def parseNum (s0 : String) : Option Num :=
+  -- `e3` an IntEnum member, `s3` an instance of an int subclass: both are ints with that value
+  let s := if s0.startsWith "e" || s0.startsWith "s" then (s0.drop 1).toString else s0
   match s.splitOn "." with
   | [_] => (parseInt s).map Num.int
   | [a, b] =>
@@ -22,12 +24,16 @@ def parseNum (s : String) : Option Num :=
 def parseNumList (s : String) : Option (List Num) :=
   if s = "-" then some [] else (s.splitOn ",").mapM parseNum
 
-/-- `N` | `s:<cps>` | `i:<int>` | `f:<decimal>` | `t:<numbers>` | `o` -/
+/-- `N` | `s:<cps>` | `i:<int>` | `f:<decimal>` | `t:<numbers>` | `o`; the *kinds* `ie:` (IntEnum
+member), `is:` (instance of an int subclass), `tn:` (namedtuple), `ts:` (instance of a tuple
+subclass) are ints / tuples to the code (`isinstance`), so they are `.int` / `.tuple` here -/
 def parseColor (t : String) : Option ColorSpec :=
   if t = "N" then some .none
   else if t = "o" then some .other
   else if t.startsWith "s:" then (parseCps (t.drop 2).toString).map .str
   else if t.startsWith "i:" then (parseInt (t.drop 2).toString).map .int
+  else if t.startsWith "ie:" || t.startsWith "is:" then (parseInt (t.drop 3).toString).map .int
+  else if t.startsWith "tn:" || t.startsWith "ts:" then (parseNumList (t.drop 3).toString).map .tuple
   else if t.startsWith "f:" then
     match parseNum (t.drop 2).toString with
     | some (.flt n d) => some (.float n d)
